@@ -80,6 +80,23 @@ def gen_plan(seed, tier):
                 random_state=pseed,
                 prior={"$arr": dict(kind="spd", seed=r.randrange(10**6), d=desc["d"],
                                     ridge=r.choice([0.2, 1.0]))} if prior == "array" else prior)
+  r2 = substream(seed, "c13-scale")
+  u = r2.random()
+  if u < 0.12 and desc["kind"] != "grid" and config != "natural":
+    # units are arbitrary: tiny features, so that the graphical-lasso input has
+    # entries of the order of 1e-10 .. 1e-12 under a covariance-like prior
+    gs = r2.choice([1e-5, 1e-6])
+    desc["global_scale"] = gs
+    desc.pop("offset", None)
+    if r2.random() < 0.6:
+      params["prior"] = "covariance"
+    else:
+      params["prior"] = {"$arr": dict(kind="spd", seed=r2.randrange(10**6), d=desc["d"],
+                                      ridge=1.0, scale=1.0 / gs ** 2)}
+  elif u < 0.24 and config != "natural":
+    # an ill-conditioned (but strictly positive definite) array prior
+    params["prior"] = {"$arr": dict(kind="spd", seed=r2.randrange(10**6), d=desc["d"],
+                                    cond=r2.choice([1e6, 1e9, 1e10, 1e11, 1e12]))}
   plan = dict(run_seed=seed, dataset=desc, params=params, config=config,
               frac=r.choice([0.1, 0.3, 0.5]) if config != "natural" else r.choice([3.0, 10.0, 100.0]),
               ambient=r.randrange(10**6), history=r.random() < 0.25)
@@ -118,6 +135,11 @@ def run_plan(plan):
     prior = make_array(prior["$arr"])
     p["prior"] = prior
   pname = "array" if isinstance(prior, np.ndarray) else prior
+  if isinstance(plan["params"]["prior"], dict) and plan["params"]["prior"]["$arr"].get("cond"):
+    pname = "array_illcond"
+    cov["illcond_array_prior"] += 1
+  if plan["dataset"].get("global_scale"):
+    cov["tiny_scale_data"] += 1
   seed = p["random_state"]
   shape = [plan["config"], plan.get("fault", "-"), pname, str(D.d), str(p["sparsity_param"]),
            str(plan["frac"]), "hist" if plan["history"] else "fresh"]
